@@ -34,10 +34,10 @@ from pyvc import plug_c05more as PM
 from pyvc import plug_hdf as H
 from pyvc.contract import Contract, LoopSpec, register, schema
 from pyvc.plug_hdf import sidx
-from pyvc.values import StrS, TBool, TInt, TObj, TStr, ValS, forall_pat as FA, str_lit
+from pyvc.values import StrS, TBool, TInt, TList, TObj, TStr, ValS, declare_ghost, forall_pat as FA, str_lit
 
-from contracts.c05_caches import DATA, P, allocated, cont, hashf, heap_preserved, kq
-from contracts.c05_full_cache import (BFC, BUCKETS, IDX, CELLS, FC, G_IN, G_JAC, G_OUT, GD, _Bfc, _HasGroup, _InitializeEntry, _ReadData, _WriteData, preserved, ri,
+from contracts.c05_caches import DATA, P, allocated, cont, cont_t, hashf, heap_preserved, kq, sc
+from contracts.c05_full_cache import (BFC, BUCKETS, IDX, CELLS, FC, G_IN, G_JAC, G_OUT, GD, _Bfc, _HasGroup, _InitializeEntry, _ReadData, _WriteData, content_stable, nestc, preserved, ri,
                                       sterm, store_same)
 from contracts.c11_hdf5_cache_file import CF, CFILE, FILE_F, SING, _Sing, _cpath, file_wf
 
@@ -75,15 +75,20 @@ def coupled(v: FC, F: CF, heap=None, ctr=None):
     """The coupling invariant between the model field ``_store`` (view v) and the cache file (view F)."""
     heap = v.heap if heap is None else heap
     ctr = v.ctr if ctr is None else ctr
-    i, g, k = z3.Int("i!cp"), z3.Const("g!cp", StrS), z3.Const("k!cp", StrS)
+    i, g, k, s = z3.Int("i!cp"), z3.Const("g!cp", StrS), z3.Const("k!cp", StrS), z3.Const("s!cp", StrS)
     p = gpath(i, g)
     has = v.has(i, g)
     return [
-        ("cpl:groups", FA([i, g], has == z3.And(F.ents.member[sidx(i)], F.has_grp(p)), p)),
-        ("cpl:names", FA([i, g], z3.Implies(has, z3.And(v.dmem(i, g) == F.ds_mem(p), v.dn(i, g) == F.ds_n(p))), p)),
+        ("cpl:groups", FA([i, g], has == z3.And(F.ents.member[sidx(i)], F.has_grp(p)), p, GD.acc(0)(v.D.get(i))[g])),
+        ("cpl:names", FA([i, g], z3.Implies(has, z3.And(v.dmem(i, g) == F.ds_mem(p), v.dn(i, g) == F.ds_n(p))), p, GD.acc(1)(v.D.get(i))[g])),
         ("cpl:contents", FA([i, g, k], z3.Implies(z3.And(has, F.ds_mem(p)[k]), stored_as(F, p, k, heap[v.dvals(i, g)[k]])), F.ds_mem(p)[k])),
         ("cpl:allocated", FA([i, g, k], z3.Implies(z3.And(has, F.ds_mem(p)[k]), z3.And(v.dvals(i, g)[k] > 0, v.dvals(i, g)[k] <= ctr)), F.ds_mem(p)[k])),
         ("cpl:members", F.nmem >= 0),
+        # what makes a reopened file readable (read_hashes): entries are named by positive integers and carry the hash of their inputs
+        ("cpl:entries-are-indices", entries_are_indices(F)),
+        ("cpl:entries-have-inputs", FA([s], z3.Implies(F.ents.member[s], F.has_grp(H.h5_path(s, G_IN))), F.ents.member[s])),
+        ("cpl:hashes-belong-to-entries", FA([s], z3.Implies(F.hashes.has(s), F.ents.member[s]), F.hashes.has(s))),
+        ("cpl:hashes", FA([i], z3.Implies(v.has(i, G_IN), stored_hash(F, i) == hashf(v.cin[i])), F.hashes.get(sidx(i)), v.cin[i])),
     ] + file_wf(F)
 
 
@@ -97,7 +102,8 @@ def hdf_axioms():
         ("sparse-contents-are-matrices", z3.ForAll([a, b], z3.Implies(z3.And(H.is_sparse(a), H.is_sparse(b), H.sp_mat(a) == H.sp_mat(b)), a == b),
                                                    patterns=[z3.MultiPattern(H.sp_mat(a), H.sp_mat(b))])),
         ("h5-paths-are-injective", z3.ForAll([s, g], z3.And(H.h5_path_e(H.h5_path(s, g)) == s, H.h5_path_g(H.h5_path(s, g)) == g), patterns=[H.h5_path(s, g)])),
-        ("str(int)-is-injective", z3.ForAll([i], H.int_of_str(H.str_of_int(i)) == i, patterns=[H.str_of_int(i)])),
+        ("str(int)-is-injective", z3.ForAll([i], z3.And(H.int_of_str(H.str_of_int(i)) == i, H.str_is_int(H.str_of_int(i))), patterns=[H.str_of_int(i)])),
+        ("hash-dataset-decodes", z3.ForAll([i], PM.hash_of_bytes(H.hash_bytes(i)) == i, patterns=[H.hash_bytes(i)])),
         ("numpy-astype:str->bytes->str", z3.ForAll([a], z3.Implies(H.np_dtype_is_str(a), z3.And(H.np_dtype_is_bytes(H.np_to_bytes(a)), H.np_to_str(H.np_to_bytes(a)) == a)),
                                                    patterns=[H.np_to_bytes(a)])),
     ]
@@ -192,10 +198,21 @@ class HcWriteData(_Hdf, _WriteData):
         return super().requires(c) + [("values-are-cacheable", cacheable(c.old.values, c.old_sym("arr", ValS)))]
 
 
+declare_ghost("hc_keep", z3.BoolSort())  # HDF5FileSingleton.__keep_open
+declare_ghost("hc_open", z3.BoolSort())  # HDF5FileSingleton.__file is not None (the handle is open)
+BOOL = z3.BoolSort()
+
+
 @register
 class HcReadData(_Hdf, _ReadData):
     targets = (HC + "._read_data",)
     couples = False
+    modifies = ("heap:arr", "ghost:hc_open")
+
+    def ensures(self, c):
+        # ASSUMED (the open/close protocol of HDF5FileSingleton.__open is not verified): a file operation leaves the handle open inside
+        # `keep_open` and closed otherwise
+        return super().ensures(c) + [("assumed:file-handle", c.new_ghost("hc_open", BOOL) == c.old_ghost("hc_keep", BOOL))]
 
 
 # =============================================================================== the file handler: has_group, clear
@@ -328,7 +345,7 @@ class SingReadHashes(_Sing):
     ghost_code = {"indices = hashes_to_indices.get(hash_)": _ghost_slot}
 
     def axioms(self, c):
-        return hdf_axioms()[1:3]
+        return hdf_axioms()[1:4]
 
     def requires(self, c):
         H0 = c.old.hashes_to_indices
@@ -348,6 +365,50 @@ class SingReadHashes(_Sing):
             ("max:attained", z3.Or(r == 0, F0.ents.member[sidx(r)])),
             ("max:nonnegative", r >= 0),
         ]
+
+
+# =============================================================================== HDF5Cache._read_hashes: a reopened cache serves the same entries
+declare_ghost("hc_prev_max", z3.IntSort())  # the number of entries of the session that left the file
+NO_TABLE = ("ri:range", "ri:initialized", "ri:inputs-present", "ri:view-coupling", "ri:allocated", "ri:distinct-inputs", "ri:nothing-stored-beyond-max-index")
+
+
+class PrevFC(FC):
+    """The abstract cache a previous session left: the store coupled with the file and its ``hc_prev_max`` entries; the hash table and
+    the counters of the new HDF5Cache object are not set yet."""
+
+    def __init__(self, c, which="old"):
+        super().__init__(c, which)
+        self.M = self.L = c.old_ghost("hc_prev_max", z3.IntSort())
+
+
+@register
+class HcReadHashes(_Bfc):
+    """``HDF5Cache._read_hashes`` (called by ``__init__`` on an empty hash table): if the file holds what a previous session left - a store
+    of ``hc_prev_max`` entries satisfying the representation invariant (but for the hash table) and the coupling invariant - then the
+    new cache object satisfies BOTH invariants with the SAME abstract entries: ``len`` is restored, every entry is filed under the hash
+    of its inputs.  Hence every lookup theorem of BaseFullCache holds for the reopened cache over the entries the file was left with."""
+
+    targets = (HC + "._read_hashes",)
+    self_schema = HC + "#c05"
+    modifies = ("self._hashes_to_indices", *CELLS, "ghost:fc_slot")
+
+    def axioms(self, c):
+        return hdf_axioms()
+
+    def requires(self, c):
+        v0, vp = self.v(c), PrevFC(c)
+        h = z3.Int("h!rh")
+        return [("empty-hash-table", z3.And(v0.H.n == 0, z3.ForAll([h], z3.Not(v0.H.has(h)))))] + \
+               [("previous-session:" + l, f) for l, f in ri(vp) if l in NO_TABLE] + coupled(v0, HF(c))
+
+    def ensures(self, c):
+        v0, v1 = self.v(c), self.v(c, "new")
+        mp = c.old_ghost("hc_prev_max", z3.IntSort())
+        F0 = HF(c)
+        # (two stepping stones naming the terms the proof of `size-restored` needs)
+        return [("lemma:the-last-entry-of-the-previous-session-is-in-the-file", z3.Implies(mp >= 1, z3.And(v0.has(mp, G_IN), F0.ents.member[sidx(mp)]))),
+                ("lemma:the-largest-entry-has-inputs", z3.Implies(v1.M != 0, z3.And(F0.ents.member[sidx(v1.M)], F0.has_grp(gpath(v1.M, G_IN)), v0.has(v1.M, G_IN)))),
+                ("size-restored", z3.And(v1.M == mp, v1.L == mp)), ("entries-untouched", store_same(v0, v1)), ("tolerance-kept", v1.tol == v0.tol)] + ri(v1) + coupled(v1, HF(c, "new"))
 
 
 def _model_clear(ex):
@@ -387,6 +448,133 @@ class HcClear(_Bfc):
         return [("no-entry", z3.And(v1.M == 0, v1.L == 0)), ("no-bucket", z3.And(v1.H.n == 0, z3.ForAll([h], z3.Not(v1.H.has(h))))),
                 ("tolerance-kept", v1.tol == v0.tol), ("store-empty", z3.And(v1.D.n == 0, z3.ForAll([i], z3.Not(v1.D.has(i))))),
                 ("file-empty", file_is_empty(HF(c, "new")))] + ri(v1) + coupled(v1, HF(c, "new"))
+
+
+# =============================================================================== enumeration of the entries (index order)
+ENTRYV = PM.TEntryRec("CacheEntryValue", {"inputs": DATA, "outputs": DATA, "jacobian": DATA})
+ENTRIES = TList(ENTRYV)
+
+
+@register
+class AllGroups(_Bfc):
+    targets = (BFC + "._all_groups",)
+    returns = TList(TInt)
+    trusted = True
+    description = ("assumed (sorted / itertools.chain / ndarray.tolist): the sorted concatenation of the index arrays of the hash table; under the "
+                   "representation invariant every index 1..max_index occurs exactly once in the buckets and nothing else does, i.e. the list [1, ..., max_index]")
+
+    def requires(self, c):
+        return ri(self.v(c))
+
+    def ensures(self, c):
+        v0, r = self.v(c), c.result
+        j = z3.Int("j!ag")
+        return [("size", r.n == v0.M), ("ascending-indices", FA([j], z3.Implies(z3.And(0 <= j, j < r.n), r.elems[j] == j + 1), r.elems[j]))]
+
+
+def _dt(term, f):
+    return ENTRYV.accessor(f)(term)
+
+
+def entry_value_is(v0, e, i, heap, ctr):
+    """The entry value e (a yielded CacheEntry) is the stored entry i: its inputs, and its outputs / Jacobian when it has some."""
+    c_of = lambda f: cont_t(_dt(e, f), heap)  # noqa: E731
+    n_of = lambda f: DATA.acc(2)(_dt(e, f))  # noqa: E731
+    k = kq("k!ev")
+    alloc = lambda f: z3.ForAll([k], z3.Implies(DATA.acc(0)(_dt(e, f))[k], z3.And(DATA.acc(1)(_dt(e, f))[k] > 0, DATA.acc(1)(_dt(e, f))[k] <= ctr)))  # noqa: E731
+    return z3.And(
+        c_of("inputs") == v0.cin[i],
+        z3.Implies(v0.nonempty(i, G_OUT), c_of("outputs") == v0.content(i, G_OUT)), (n_of("outputs") == 0) == z3.Not(v0.nonempty(i, G_OUT)),
+        z3.Implies(v0.nonempty(i, G_JAC), c_of("jacobian") == nestc(v0.content(i, G_JAC))), (n_of("jacobian") == 0) == z3.Not(v0.nonempty(i, G_JAC)),
+        alloc("inputs"), alloc("outputs"), alloc("jacobian"))
+
+
+def _entries_inv(c, k):
+    v0 = FC(c)
+    ys = c.locals["__yield__"]
+    j = z3.Int("j!en")
+    h1 = c.new_sym("arr", ValS)
+    return [("heap", heap_preserved(c)), ("content-stable", content_stable(c)), ("yielded", ys.n == k),
+            ("entries-so-far", FA([j], z3.Implies(z3.And(0 <= j, j < k), entry_value_is(v0, ys.elems[j], j + 1, h1, c.new_ctr)), ys.elems[j]))]
+
+
+@register
+class BfcGetAllEntries(_Bfc):
+    """``get_all_entries`` (and ``__iter__``): the entries 1..len(cache) in index order, each with the inputs filed under its index and the
+    outputs / Jacobian stored for it (empty when it has none); the cache is not modified."""
+
+    targets = (BFC + ".get_all_entries",)
+    returns = ENTRIES
+    modifies = ("heap:arr",)
+    loops = {0: LoopSpec(anchor="self._all_groups", modifies=("__yield__", "heap:arr"), inv=_entries_inv)}
+
+    def requires(self, c):
+        return ri(self.v(c))
+
+    def ensures(self, c):
+        v0, r = self.v(c), c.result
+        j = z3.Int("j!ge")
+        h1 = c.new_sym("arr", ValS)
+        return [("one-entry-per-index", r.n == v0.M),
+                ("entries-in-index-order", FA([j], z3.Implies(z3.And(0 <= j, j < r.n), entry_value_is(v0, r.elems[j], j + 1, h1, c.new_ctr)), r.elems[j])),
+                *preserved(c)]
+
+
+def _hc_entries_inv(c, k):
+    return _entries_inv(c, k) + [("handle", z3.And(c.new_ghost("hc_keep", BOOL), z3.Implies(k >= 1, c.new_ghost("hc_open", BOOL)),
+                                                   z3.Implies(k == 0, c.new_ghost("hc_open", BOOL) == c.old_ghost("hc_open", BOOL))))]
+
+
+@register
+class HcGetAllEntries(BfcGetAllEntries):
+    """The override of HDF5Cache (same loop inside ``keep_open``): same specification, the file and the model store stay coupled, the
+    file handle is closed again.  No exception is allowed - FAILS for an EMPTY cache: ``keep_open`` closes a handle that no file
+    operation opened (``__close``: ``assert self.__file is not None``) -> AssertionError (known finding, region ``empty-cache``)."""
+
+    targets = (HC + ".get_all_entries",)
+    self_schema = HC + "#c05"
+    modifies = ("heap:arr", "ghost:hc_open", "ghost:hc_keep")
+    loops = {0: LoopSpec(anchor="self._all_groups", modifies=("__yield__", "heap:arr", "ghost:hc_open"), inv=_hc_entries_inv)}
+    c05more_handle_protocol = True
+
+    def axioms(self, c):
+        return hdf_axioms()
+
+    def finding_regions(self, c):
+        return {"empty-cache": self.v(c).M == 0}
+
+    def requires(self, c):
+        closed = z3.And(z3.Not(c.old_ghost("hc_keep", BOOL)), z3.Not(c.old_ghost("hc_open", BOOL)))
+        return super().requires(c) + coupled(self.v(c), HF(c)) + [("file-handle-closed", closed)]
+
+    def ensures(self, c):
+        return super().ensures(c) + [("file-handle-closed", z3.And(z3.Not(c.new_ghost("hc_keep", BOOL)), z3.Not(c.new_ghost("hc_open", BOOL))))]
+
+
+@register
+class CacheIter(BfcGetAllEntries):
+    """``BaseCache.__iter__`` of a full cache is ``get_all_entries``."""
+
+    targets = (P + "base_cache.BaseCache.__iter__",)
+    self_class = BFC
+    loops = {}
+
+
+@register
+class SimpleCacheGetAllEntries(Contract):
+    """``SimpleCache.get_all_entries``: the single stored entry (inputs, outputs, Jacobian as stored), nothing for an empty cache."""
+
+    targets = (P + "simple_cache.SimpleCache.get_all_entries",)
+    prop = ("C05",)
+    returns = ENTRIES
+
+    def ensures(self, c):
+        i0, o0, j0 = sc(c)
+        r = c.result
+        e = r.elems[0]
+        same = lambda f, d: z3.And(DATA.acc(0)(_dt(e, f)) == d.member, DATA.acc(1)(_dt(e, f)) == d.vals, DATA.acc(2)(_dt(e, f)) == d.n)  # noqa: E731
+        return [("size", r.n == z3.If(i0.n != 0, 1, 0)),
+                ("the-stored-entry", z3.Implies(i0.n != 0, z3.And(same("inputs", i0), same("outputs", o0), same("jacobian", j0))))]
 
 
 from contracts import c05_linearize  # noqa: E402,F401  (registers the linearize contracts)
